@@ -81,3 +81,14 @@ Example ex_all : dirichlet_bcs_indices [3; 3]%nat (map (fun b => (b, 0%nat)) (al
 Proof. vm_compute. reflexivity. Qed.
 Example ex_initial : initial_indices [3; 2]%nat (BPair 0 1) = Some [2; 3; 4; 5]%nat.
 Proof. vm_compute. reflexivity. Qed.
+
+Close Scope Z_scope.
+Open Scope nat_scope.
+(* a valid multi-index on the slice; the 2x2 solve with a non-singular matrix *)
+Example ex_valid_mi : valid_mi [3; 4] [2; 1] /\ nth 0 [2; 1] 0 = 2 /\ ravel [3; 4] [2; 1] = 9.
+Proof. repeat split; repeat constructor. Qed.
+Example ex_slice_hyp : 0 < length [3; 4] /\ 2 < nth 0 [3; 4] 0.
+Proof. simpl. lia. Qed.
+Example ex_solve2 : (~ 1 * 6 - 0 * (- (6)) == 0)%Q /\
+  (let a := solve2 1 0 (- (6)) 6 (3 # 2) 3 in fst a == 3 # 2 /\ snd a == 2)%Q.
+Proof. split; [discriminate|]. vm_compute. split; reflexivity. Qed.
